@@ -75,9 +75,13 @@ def results_equal(stmt, ri, rm, mode):
     if rm == ("err", "Undefined"):
         # the statistic does not exist (empty value set / no finite defined piece): the implementation
         # either raises or answers NaN; the properties do not say which
-        return ri[0] == "err" or (ri[0] == "vals" and all(v is None for v in ri[1]))
+        # (C08/C09 are stated for functions with at least one finite defined piece); whatever the
+        # implementation does there - raise, NaN, or a degenerate number - is outside the properties
+        return True
     if ri[0] == "err" or rm[0] == "err":
         return ri == rm
+    if cmd == "deltaroundtrip":
+        return frames_equal(ri, rm, normalise=False, closed=False)
     if cmd in ("frame", "rawframe", "views"):
         return frames_equal(ri, rm, normalise=mode.get("normalise", True) and cmd == "frame",
                             closed=mode.get("closed", False) or cmd == "views")
